@@ -35,7 +35,13 @@ class ReplaceInputs(CircuitContract):
         ctx.assume(z3.ForAll([l], z3.Implies(z3.And(S0.dom(l), S0.typ(l) == GT['INPUT']), S0.nops(l) == 0)))     # ARITY for inputs
         ts = [z3.Const(f't{i}', LabelSort) for i in range(self.kt)]
         fs = [z3.Const(f'f{i}', LabelSort) for i in range(self.kf)]
-        return [c, VList([Sym(x) for x in ts]), VList([Sym(x) for x in fs])], {}, {'h': h, 'S0': S0, 'ts': ts, 'fs': fs}
+        # position of an input in the original list (representation facts: a listed label occurs at some position; two
+        # positions with the same label would count >= 2, impossible by W4) — lean: count_pos_witness, two_positions_count
+        pf = z3.Function('inpos', LabelSort, I)
+        i, j = z3.Ints('i!ip j!ip')
+        ctx.assume(z3.ForAll([l], z3.Implies(S0.in_cnt(l) > 0, z3.And(pf(l) >= 0, pf(l) < S0.in_n, S0.in_elem(pf(l)) == l))))
+        ctx.assume(z3.ForAll([i, j], z3.Implies(z3.And(i >= 0, i < j, j < S0.in_n, S0.in_elem(i) == S0.in_elem(j)), S0.in_cnt(S0.in_elem(i)) >= 2)))
+        return [c, VList([Sym(x) for x in ts]), VList([Sym(x) for x in fs])], {}, {'h': h, 'S0': S0, 'ts': ts, 'fs': fs, 'pos0': lambda q: pf(q)}
 
     def post(self, it, ctx, result, st):
         h, S0, ts, fs = st['h'], st['S0'], st['ts'], st['fs']
@@ -52,6 +58,12 @@ class ReplaceInputs(CircuitContract):
                                                              S1.opc(l, y) == S0.opc(l, y), S1.in_cnt(l) == S0.in_cnt(l))))
         yield ('frame/users-outputs-blocks', state_eq(ctx, S1, S0, USERS + ['out_n', 'out_elem', 'out_cnt'] + BLK))
         yield ('inputs-count', S1.in_n == S0.in_n - len(ts + fs))
+        # the remaining inputs keep their original relative order: positions in the new list map to increasing positions of the old one
+        pos0 = st['pos0']
+        a, b2 = ctx.fresh(I, 'oa'), ctx.fresh(I, 'ob')
+        yield ('inputs/remaining-in-original-order', z3.Implies(z3.And(a >= 0, a < b2, b2 < S1.in_n), z3.And(pos0(S1.in_elem(a)) < pos0(S1.in_elem(b2)),
+                                                                                                        S0.in_elem(pos0(S1.in_elem(a))) == S1.in_elem(a))), {'witness': 'input-order'})
+        yield ('inputs/remaining-are-the-others', z3.Implies(z3.And(a >= 0, a < S1.in_n), z3.And([S1.in_elem(a) != x for x in ts + fs]) if ts + fs else z3.BoolVal(True)))
         if len(ts + fs) > 1:
             yield ('labels-were-distinct', z3.Distinct(*(ts + fs)))
 
@@ -73,7 +85,7 @@ def run(rep):
     rep.trusted_base = list(STD_TRUSTED) + ['abstract circuit model vlib/pyvc/circuit_model.py', 'proof rule R2: retyping an input to a constant yields the cofactor (DAG induction over unchanged gate equations)']
     for a in STD_ASSUME:
         rep.assume(a)
-    rep.assume('replace_subcircuit has no deductive obligation in this build (bounded stand-in only); input ORDER after replace_inputs is bounded-only (the model keeps the multiset of inputs)')
+    rep.assume('replace_subcircuit has no deductive obligation in this build (bounded stand-in only); the cofactor statement itself is rule R2 over the retyped gates')
     rep.assume('rename_gate: Block._rename_gate is used at its call site by a count-level summary (every occurrence of old becomes new in the three block lists); its body is proved '
                'position-wise only for lists of length <= (2,3,2); representation lemmas of python lists/tuples (a counted label occurs at some position; two positions with the same '
                'label count >= 2; x occurs in a prefix-closed enumeration iff count(x) > 0; the filter comprehension [i for i, y in enumerate(L) if y == x] enumerates all positions of x increasingly) are background facts')
